@@ -2,6 +2,8 @@ import PlasVerif.Driver.C01
 import PlasVerif.Driver.C04
 import PlasVerif.Driver.C19
 import PlasVerif.Driver.C18
+import PlasVerif.Driver.C09
+import PlasVerif.Driver.C08
 /-!
 Line-protocol driver: one request per line `<property> <stream> <payload…>`, one
 answer per line `<model output>\t<spec output or ->[\t<aux>]`.  Imports only `Model`,
@@ -16,6 +18,8 @@ def dispatch (line : String) : String :=
   | "C04" :: r => C04.handle r
   | "C19" :: r => C19.handle r
   | "C18" :: r => C18.handle r
+  | "C09" :: r => C09.handle r
+  | "C08" :: r => C08.handle r
   | _ => "bad-op"
 
 partial def loop (h : IO.FS.Stream) (out : IO.FS.Stream) : IO Unit := do
